@@ -1,4 +1,5 @@
 pub mod alu;
 pub mod asm;
+pub mod cmd;
 pub mod grammar;
 pub mod isa;
